@@ -7,7 +7,7 @@ Open Scope string_scope.
 
 Lemma primop_table_ok : forallb primop_ok primop_table = true.
 Proof. vm_compute. reflexivity. Qed.
-Lemma special_table_ok : forallb (fun e => blamed (e_class e)) special_table = true.
+Lemma special_table_ok : forallb (fun e => blamed_pos (e_class e)) special_table = true.
 Proof. vm_compute. reflexivity. Qed.
 Lemma allowed_table_ok : forallb (fun e => is_value (e_class e)) allowed_table = true.
 Proof. vm_compute. reflexivity. Qed.
@@ -35,7 +35,8 @@ Proof. vm_compute. reflexivity. Qed.
 
 (* The statement: in the table observed on the real interpreter,
    - every strict operand position of every primitive operation blames a sealed operand, except `seq`
-     (which must evaluate to a value), and except entries that cannot be reached from source;
+     (which must evaluate to a value), and except entries that cannot be reached from source; the blame
+     is positive: the function under the contract is the blamed party;
    - application, if, match, interpolation, ==, serialisation, export ... blame;
    - seq and unseal-with-the-right-key yield the value;
    - every record operation on a record with a sealed tail either raises TailAccess / blame or is blind
@@ -43,9 +44,9 @@ Proof. vm_compute. reflexivity. Qed.
      tail itself must raise. *)
 Definition seal_guard_statement : Prop :=
   (forall e, In e primop_table -> is_seq e = false ->
-             blamed (e_class e) = true \/ not_from_source (e_class e) = true)
+             e_class e = BlamePos \/ not_from_source (e_class e) = true)
   /\ (forall e, In e primop_table -> is_seq e = true -> e_class e = Value)
-  /\ (forall e, In e special_table -> blamed (e_class e) = true)
+  /\ (forall e, In e special_table -> e_class e = BlamePos)
   /\ (forall e, In e allowed_table -> e_class e = Value)
   /\ (forall e, In e tail_table ->
         e_class e = TailAccess \/ blamed (e_class e) = true \/ (e_class e = Blind /\ e_pos e = 0))
@@ -59,10 +60,11 @@ Proof.
   rewrite forallb_forall in Hp, Hs, Ha, Ht.
   repeat split.
   - intros e Hin Hseq. specialize (Hp e Hin). unfold primop_ok in Hp. rewrite Hseq in Hp.
-    apply orb_true_iff in Hp. exact Hp.
+    apply orb_true_iff in Hp. destruct Hp as [Hp|Hp]; [left|right; exact Hp].
+    destruct (e_class e); simpl in Hp; try discriminate; reflexivity.
   - intros e Hin Hseq. specialize (Hp e Hin). unfold primop_ok in Hp. rewrite Hseq in Hp.
     destruct (e_class e); simpl in Hp; try discriminate; reflexivity.
-  - intros e Hin. exact (Hs e Hin).
+  - intros e Hin. specialize (Hs e Hin). destruct (e_class e); simpl in Hs; try discriminate; reflexivity.
   - intros e Hin. specialize (Ha e Hin). destruct (e_class e); simpl in Ha; try discriminate; reflexivity.
   - intros e Hin. specialize (Ht e Hin). unfold tail_ok in Ht.
     destruct (e_class e) eqn:Hc; try discriminate; auto.
